@@ -15,7 +15,7 @@ On the HTTP/1 parser path two clauses are FALSE of the real code (see the `_coun
 by SP before `HttpHeader::parse` looks at the framing fields, and a CR-only line followed by a line that starts with SP/HT is
 swallowed by `unfoldMime`. The rejection theorems below are therefore about `HttpHeader::parse` itself.
 -/
-import SquidModel.Header.StoredLemmas
+import SquidModel.Header.RoundtripLemmas
 import SquidModel.Header.MimeLemmas
 
 namespace SquidModel.C25
@@ -71,15 +71,29 @@ theorem accepted_block_stored_exactly (cfg : Cfg) (fs : List FieldSyn) (t : Byte
     rw [hdel _ idContentLength (fun e he => (hnocl e he).1), hdel _ idTransferEncoding (fun e he => (hnocl e he).2)]
   · simp [hp, hany]
 
-/-- FULL STATEMENT (not proved): the same for every accepted block, including stored values that span lines (the direct caller of
-`HttpHeader::parse` keeps obs-folds inside the value).
+/-- FULL STATEMENT (not proved): the same without `hline`, i.e. including stored values that span lines (a direct caller of
+`HttpHeader::parse` keeps obs-folds inside the value; behind the HTTP/1 parsers folds are unfolded first and `hline` always holds
+except in the region of finding C25-cr-line-unfolded).
 
-**Packing and re-parsing.** If a block is accepted and no stored value contains CR or LF (i.e. no field was folded — always the case
-behind the HTTP/1 parsers, which unfold first), then scanning what `packInto` writes yields the same entries again. -/
-theorem pack_parse_roundtrip_partial (cfg : Cfg) (block : Bytes) (raw : List Entry) (h : rawEntries cfg block = some raw)
+**Packing and re-parsing.** After a successful `HttpHeader::parse` whose stored values do not contain CR or LF, parsing what `packInto`
+writes for the stored entries succeeds and stores exactly the same entries again (same ids, names, values, order), and reports the
+same `unsupportedTe()`. This includes the Content-Length entry re-written by the sanitiser. -/
+theorem pack_parse_roundtrip_partial (cfg : Cfg) (block : Bytes) (r : HdrResult) (h : parseHeader cfg block = .ok r)
+    (hline : ∀ e ∈ r.entries, (10 : UInt8) ∉ e.value ∧ (13 : UInt8) ∉ e.value) :
+    ∃ r', parseHeader cfg (pack r.entries) = .ok r' ∧ r'.entries = r.entries ∧ r'.teUnsupported = r.teUnsupported :=
+  parse_pack_roundtrip cfg block r h hline
+
+/-- the same for the field scan alone (before the Content-Length decision) -/
+theorem scan_pack_roundtrip_partial (cfg : Cfg) (block : Bytes) (raw : List Entry) (h : rawEntries cfg block = some raw)
     (hline : ∀ e ∈ raw, (10 : UInt8) ∉ e.value ∧ (13 : UInt8) ∉ e.value) :
     rawEntries cfg (pack raw) = some raw :=
   rawEntries_pack cfg raw (fun e he => rawEntries_stored cfg block raw h e he (hline e he))
+
+/-- every stored entry of an accepted block satisfies the stored-entry invariant: token name (canonical if registered) consistent
+with its id, trimmed value without NUL, both within the 64 KB String limit -/
+theorem stored_entries_invariant (cfg : Cfg) (block : Bytes) (raw : List Entry) (h : rawEntries cfg block = some raw) :
+    ∀ e ∈ raw, (10 : UInt8) ∉ e.value ∧ (13 : UInt8) ∉ e.value → Stored e :=
+  rawEntries_stored cfg block raw h
 
 /-- `packInto` writes each entry as name, colon, SP, value, CRLF -/
 theorem pack_form (es : List Entry) : pack es = es.flatMap (fun e => e.name ++ [58, 32] ++ e.value ++ [13, 10]) := rfl
